@@ -361,7 +361,9 @@ pub fn c01_withdraw(m: &mut Mon, ctx: &StepCtx, stats: &mut Stats, out: &mut Vec
         viol(out, "C01", "released_claims_are_funded", ctx.idx, if l_post + 1 == claims_now { "hub:funding:short_by_1" } else { "hub:funding" }, format!("hub holds {} but released claims are worth {}", l_post, claims_now));
     }
     // ---- 3. must succeed
-    if is_withdraw && !ctx.committed() && !ctx.abort_injected && !ctx.hub_paused_pre() {
+    // (a withdraw that attaches coins the signer does not have never reaches the hub)
+    let never_reached_hub = ctx.out.map(|o| o.err_kind == Some(crate::wasm::ErrKind::Chain) && o.err_at == Some(0)).unwrap_or(false);
+    if is_withdraw && !ctx.committed() && !ctx.abort_injected && !ctx.hub_paused_pre() && !never_reached_hub {
         let signer = ctx.tx.map(|t| t.sender.clone()).unwrap_or_default();
         let reqs = pre.requests.get(&signer).cloned().unwrap_or_default();
         let (v, _) = released_claim_value(&reqs, &pre.history);
